@@ -47,6 +47,9 @@ func genCase() *rapid.Generator[Case] {
 				edits = append(edits, prog.OpsByKind[k]...)
 			}
 		}
+		if mask&(1<<8) != 0 { // tree in focus: splits and merges too
+			edits = append(edits, treeExtraOps...)
+		}
 		pool := append([]string{}, edits...)
 		if mask&(1<<(len(editKinds)-2)) != 0 { // undo in focus: make it frequent
 			pool = append(pool, "undo", "undo", "redo")
